@@ -3,8 +3,8 @@
 Theorems: coq/theories/Props/C16.v.
 Tie: (T) Gen/C16Gen.v regenerated from timeprocessing.py / base.py / main.py / __init__.py (constants, the shape of every
 pause_asap_eval call, the skip rule) and Gen/FuncTable.v (arities, DEPS) + (C) random sample histories evaluated on the real
-function objects (outputs AND the pause deadline after every evaluation) against the Coq model (vm_compute), against the Coq
-specification (Spec.v), and end to end: every-tick evaluation against evaluation gated by the real
+function objects (outputs, the pause deadline AND which arguments were evaluated, inputs being values / unavailable / disabled
+per sample) against the Coq model (vm_compute), against the Coq specification (Spec.v, ArgModel.v spec_o), and end to end: every-tick evaluation against evaluation gated by the real
 main.handle_value_changes, with the function at top level and nested.
 """
 import asyncio
@@ -26,7 +26,8 @@ TIE = ('translator (constants, pause_asap_eval call shapes, Expression.eval/paus
        'through the real main.handle_value_changes')
 ALLOWED_AXIOMS = []
 TRUSTED_BASE = [
-    'harness/translate/timefuncs.py (reads constants, the pause_asap_eval call shapes, base.py bodies, the main.py skip rule)',
+    'harness/translate/timefuncs.py (reads constants, the pause_asap_eval call shapes, the order of argument evaluation relative '
+    'to the early exits of every _eval, base.py bodies, the main.py skip rule)',
     'harness/translate/functable.py (arities and DEPS of the fourteen functions)',
     'correspondence harness harness/props/c16.py: fake port registry over core.ports.get / get_all; the real function objects '
     'are driven with explicit EvalContext(port_values, now_ms); the real main.handle_value_changes decides which ticks evaluate',
@@ -35,7 +36,9 @@ TRUSTED_BASE = [
     'finish within its tick, so has_pending_eval() is false)',
 ]
 ASSUMPTIONS = [
-    'the step functions take already evaluated arguments: histories along which an argument is unavailable / fails, and '
+    'argument outcomes (value / unavailable / error per sample) are modelled by ostep (ArgModel.v) and tied incl. which $port '
+    'arguments are evaluated; history-level outcome theorems exclude FREEZE and SEQUENCE; the pause-invariant theorem is about '
+    'evaluated arguments: the 1 s error pause and '
     'pausing functions whose argument itself depends on time (another time-processing function, MILLISECOND()), are outside '
     'the theorems; the latter REFUTES the pause invariant (History/C16Nested.v) and is reported by the end-to-end oracle as '
     'the known finding {kind: pause, position: nested-time-dependent-argument} (notes/C16.md finding 2)',
@@ -75,12 +78,13 @@ class FakePort:
         self._id = pid
         self.expression = None
         self.pushed = 0
+        self.enabled = True
 
     def get_id(self):
         return self._id
 
     def is_enabled(self):
-        return True
+        return self.enabled
 
     def get_last_read_value(self):
         return None
@@ -96,6 +100,8 @@ class FakePort:
 
 
 _installed = {}
+_lookups = {}          # port id -> number of core.ports.get() calls = evaluations of the `$port` argument (PortValue._eval)
+DISABLED = 'disabled'  # marker in a tick's port values: the port exists but is disabled (PortValue raises DisabledPort)
 
 
 def install():
@@ -106,7 +112,10 @@ def install():
     from qtoggleserver.core import ports as core_ports
     reg = {'p%d' % i: FakePort('p%d' % i) for i in range(1, 10)}
     reg['out'] = FakePort('out')
-    core_ports.get = lambda pid: reg.get(pid)
+    def counting_get(pid):
+        _lookups[pid] = _lookups.get(pid, 0) + 1
+        return reg.get(pid)
+    core_ports.get = counting_get
     core_ports.get_all = lambda: [reg['out']]
     _installed.update(reg)
     return _installed
@@ -197,9 +206,27 @@ def gen_param(rng, role, n, sig_pal):
     return False, out, None
 
 
-def gen_history(rng, fname, n=None):
-    """-> {'function', 'text', 'ticks': [(now_ms, {port: value})], 'args': [[evaluated args] per tick], 'mode'}"""
+def inject_failures(rng, vals):
+    """stretches of 1-5 samples in which the port is unavailable (value None) or disabled"""
+    out = list(vals)
+    p = rng.choice([0.04, 0.08, 0.15])
+    i = 0
+    while i < len(out):
+        if i > 0 and rng.random() < p:
+            kind = None if rng.random() < 0.7 else DISABLED
+            for _ in range(rng.choice([1, 1, 2, 3, 5])):
+                if i < len(out):
+                    out[i] = kind
+                    i += 1
+        i += 1
+    return out
+
+
+def gen_history(rng, fname, n=None, faulty=None):
+    """-> {'function', 'text', 'ticks': [(now_ms, {port: value | None | DISABLED})], 'args': [[argument outcomes] per tick], 'mode'}"""
     n = n or rng.choice([8, 10, 12, 16, 20, 24, 30, 40, 60])
+    if faulty is None:
+        faulty = rng.random() < 0.35
     times, mode = gen_times(rng, n)
     nan_ok = fname != 'FMEDIAN'
     sig = gen_signal(rng, n, nan_ok=nan_ok)
@@ -231,9 +258,12 @@ def gen_history(rng, fname, n=None):
             port_no += 1
             cols.append(('p%d' % port_no, vals))
             texts.append('$p%d' % port_no)
+    if faulty:
+        cols = [(p, inject_failures(rng, vals) if p and rng.random() < 0.7 else vals) for p, vals in cols]
     ticks = [(times[i], {p: vals[i] for p, vals in cols if p}) for i in range(n)]
     args = [[vals[i] for _, vals in cols] for i in range(n)]
-    return {'function': fname, 'text': '%s(%s)' % (fname, ', '.join(texts)), 'ticks': ticks, 'args': args, 'mode': mode}
+    return {'function': fname, 'text': '%s(%s)' % (fname, ', '.join(texts)), 'ticks': ticks, 'args': args, 'mode': mode,
+            'faulty': bool(faulty)}
 
 
 # ---------------------------------------------------------------------------------------------------- implementation
@@ -245,30 +275,53 @@ def exc_code(e):
     return 99
 
 
+def arg_ports(text):
+    """positions of the `$port` arguments of F(a, b, ...) with plain arguments: {position: port id}"""
+    inner = text[text.index('(') + 1:text.rindex(')')]
+    return {i: p.strip()[1:] for i, p in enumerate(inner.split(',')) if p.strip().startswith('$')}
+
+
 async def eval_history(text, ticks):
-    """drive the real function object; -> [(outcome, deadline)], outcome = ('val', v) | ('none',) | ('skipped',) | ('exc', code)
-    | ('err', class name)"""
+    """drive the real function object; -> [(outcome, deadline, evaluated)], outcome = ('val', v) | ('none',) | ('skipped',)
+    | ('exc', code) | ('unavail',) | ('err',); evaluated = positions of the `$port` arguments that were evaluated (counted
+    through the port registry look-up every PortValue._eval makes)"""
     from qtoggleserver.core import expressions
     from qtoggleserver.core.expressions import EvalContext, ROLE_VALUE
-    from qtoggleserver.core.expressions.exceptions import EvalSkipped, ExpressionEvalError
+    from qtoggleserver.core.expressions.exceptions import EvalSkipped, ExpressionEvalError, ValueUnavailable
+    reg = install()
     e = expressions.parse(None, text, ROLE_VALUE)
+    try:
+        pos = arg_ports(text)
+    except ValueError:
+        pos = {}
     out = []
-    for now, pv in ticks:
-        try:
-            v = await e.eval(EvalContext(dict(pv), now))
-            if v is None:
-                o = ('none',)
-            elif isinstance(v, (bool, int, float)):
-                o = ('val', v)
-            else:
-                o = ('err', 'result ' + type(v).__name__)
-        except EvalSkipped:
-            o = ('skipped',)
-        except ExpressionEvalError as x:
-            o = ('err', type(x).__name__)
-        except Exception as x:
-            o = ('exc', exc_code(x))
-        out.append((o, e._asap_eval_paused_until_ms))
+    try:
+        for now, pv in ticks:
+            ctxv = {}
+            for p, v in pv.items():
+                reg[p].enabled = not isinstance(v, str)
+                ctxv[p] = None if not reg[p].enabled else v
+            _lookups.clear()
+            try:
+                v = await e.eval(EvalContext(ctxv, now))
+                if v is None:
+                    o = ('none',)
+                elif isinstance(v, (bool, int, float)):
+                    o = ('val', v)
+                else:
+                    o = ('err',)
+            except EvalSkipped:
+                o = ('skipped',)
+            except ValueUnavailable:
+                o = ('unavail',)
+            except ExpressionEvalError:
+                o = ('err',)
+            except Exception as x:
+                o = ('exc', exc_code(x))
+            out.append((o, e._asap_eval_paused_until_ms, sorted(i for i, p in pos.items() if _lookups.get(p))))
+    finally:
+        for p in reg.values():
+            p.enabled = True
     return out
 
 
@@ -403,7 +456,15 @@ def coq_outc(o):
         return 'OSkipped'
     if o[0] == 'exc':
         return '(OExc %s)' % zlit(o[1])
-    return '(OExc (zi 98))'       # an ExpressionEvalError other than EvalSkipped: the model never produces it
+    raise ValueError(o)
+
+
+def coq_xout(tb, o):
+    if o[0] == 'unavail':
+        return 'XUnavail'
+    if o[0] == 'err':
+        return 'XErr'
+    return tb.name('o', 'xout', '(XOut %s)' % ('(OVal %s)' % tb.val(o[1]) if o[0] == 'val' else coq_outc(o)))
 
 
 class Tables:
@@ -426,23 +487,26 @@ class Tables:
         return self.name('v', 'pyval', vlit(v))
 
     def args(self, a):
-        al = 'pn'
+        al = 'an'
         for x in reversed(a):
-            al = '(pc %s %s)' % (self.val(x), al)
-        return self.name('a', 'list pyval', al)
+            ao = 'AUnavail' if x is None else 'AErr' if isinstance(x, str) else '(AVal %s)' % self.val(x)
+            al = '(ac %s %s)' % (ao, al)
+        return self.name('a', 'list argo', al)
 
-    def outc(self, o):
-        if o[0] == 'val':
-            return self.name('o', 'outc', '(OVal %s)' % self.val(o[1]))
-        return self.name('o', 'outc', coq_outc(o))
+    def zs(self, l):
+        return self.name('e', 'list Z', '[%s]%%Z' % '; '.join('%d' % i for i in l))
 
 
 def coq_case(tb, h, obs, want_spec=True):
     body = 'on'
-    for (now, _pv), a, (o, d) in reversed(list(zip(h['ticks'], h['args'], obs))):
-        body = '(r %d %s %s %s\n %s)' % (now, tb.args(a), tb.outc(o), tb.val(d), body) if 0 <= now < 2 ** 62 else \
-            '(oc (ob %s %s %s %s)\n %s)' % (zlit(now), tb.args(a), tb.outc(o), tb.val(d), body)
-    return '(cs %s %s %s)' % (zlit(CODE[h['function']]), coq.boolean(want_spec), body)
+    for (now, _pv), a, (o, d, ev) in reversed(list(zip(h['ticks'], h['args'], obs))):
+        body = '(r %d %s %s %s %s\n %s)' % (now, tb.args(a), coq_xout(tb, o), tb.val(d), tb.zs(ev), body) if 0 <= now < 2 ** 62 else \
+            '(oc (ob %s %s %s %s %s)\n %s)' % (zlit(now), tb.args(a), coq_xout(tb, o), tb.val(d), tb.zs(ev), body)
+    try:
+        mask = sorted(arg_ports(h['text']))
+    except ValueError:
+        mask = []
+    return '(cs %s %s %s %s)' % (zlit(CODE[h['function']]), coq.boolean(want_spec), tb.zs(mask), body)
 
 
 def shard_text(items):
@@ -457,16 +521,30 @@ def describe_out(o):
     return [o[0]] + [pyvals.describe(x) if isinstance(x, (bool, int, float)) else x for x in o[1:]]
 
 
+def describe_in(v):
+    """a port's state at one tick: a value, unavailable (None) or disabled"""
+    if v is None:
+        return {'unavailable': True}
+    if isinstance(v, str):
+        return {'disabled': True}
+    return pyvals.describe(v)
+
+
 def history_json(h, obs=None, upto=None):
     n = len(h['ticks']) if upto is None else upto + 1
     d = {'function': h['function'], 'expression': h['text'],
-         'ticks': [[now, {p: pyvals.describe(v) for p, v in pv.items()}] for now, pv in h['ticks'][:n]]}
+         'ticks': [[now, {p: describe_in(v) for p, v in pv.items()}] for now, pv in h['ticks'][:n]]}
     if obs is not None:
-        d['implementation'] = [{'outcome': describe_out(o), 'paused_until_ms': pyvals.describe(dl)} for o, dl in obs[:n]]
+        d['implementation'] = [{'outcome': describe_out(o), 'paused_until_ms': pyvals.describe(dl), 'evaluated_port_arguments': ev}
+                               for o, dl, ev in obs[:n]]
     return d
 
 
 def undescribe(d):
+    if 'unavailable' in d:
+        return None
+    if 'disabled' in d:
+        return DISABLED
     if 'bool' in d:
         return bool(d['bool'])
     if 'int' in d:
@@ -524,7 +602,7 @@ def eval_batch(ctx, res, items, tag):
         shards.append(shard_text(rest[i:i + per]))
         metas.append(rest[i:i + per])
     t0 = time.time()
-    outs = coq.eval_shards(ctx.workdir, 'c16_' + tag, HEADER, shards, ['bad_model cases', 'bad_spec cases'], jobs=4, timeout=1500)
+    outs = coq.eval_shards(ctx.workdir, 'c16_' + tag, HEADER, shards, ['bad_model cases', 'bad_spec cases'], jobs=2, timeout=1500)
     t_coq = time.time() - t0
     for (rc, lists, err), chunk in zip(outs, metas):
         if rc != 0 or len(lists) != 2:
@@ -541,8 +619,9 @@ def eval_batch(ctx, res, items, tag):
             h, obs, _ = chunk[ci]
             res['violations'].append({
                 'key': classify_spec(h, step),
-                'what': '%s: evaluation %d of the history answers %r, which contradicts the specification (Spec.v spec_%s)'
-                        % (h['text'], step, obs[step][0], h['function']),
+                'what': '%s: evaluation %d of the history answers %r having evaluated its $port arguments at positions %r, which '
+                        'contradicts the specification (Spec.v spec_%s / ArgModel.v spec_o, spec_evaluated)'
+                        % (h['text'], step, obs[step][0], obs[step][2], h['function']),
                 'case': dict(history_json(h, obs, step), kind='spec'),
                 'observed': describe_out(obs[step][0]),
             })
@@ -559,7 +638,7 @@ def gen_hub_case(rng, fname, nested=None):
     n = rng.choice([30, 45, 65, 80])
     tick = rng.choice([100, 100, 100, 200, 250, 500])
     t = T0 + rng.randint(0, 10 ** 6)
-    h = gen_history(rng, fname, n)
+    h = gen_history(rng, fname, n, faulty=False)
     # regular ticks (occasionally one long gap), rare input changes
     times = []
     for i in range(n):
@@ -740,6 +819,8 @@ def _distribution(res, items):
         dist[b] = dist.get(b, 0) + 1
         if '$p2' in h['text'] or '$p3' in h['text']:
             dist['with_port_parameters'] = dist.get('with_port_parameters', 0) + 1
+        if h.get('faulty'):
+            dist['with_unavailable_or_disabled_inputs'] = dist.get('with_unavailable_or_disabled_inputs', 0) + 1
         # non-trivial: at least 8 samples and the first argument takes at least two different values
         firsts = {repr(a[0]) for a in h['args']}
         if ln >= 8 and len(firsts) >= 2:
@@ -750,7 +831,7 @@ def _distribution(res, items):
 def _outcome_distribution(res, observed):
     dist = res['distribution']
     for obs in observed:
-        for o, d in obs:
+        for o, d, _ev in obs:
             k = 'outcome:' + o[0]
             dist[k] = dist.get(k, 0) + 1
             if d:
@@ -789,8 +870,10 @@ def check(ctx, res):
     res['rule'] = (
         'per function: random sample histories of 8-60 evaluations (regular 100-1000 ms ticks, irregular gaps, jumps of more '
         'than a day forwards and backwards, repeated time stamps), signal values from small palettes (so that values repeat) '
-        'plus boundary ints/bools/floats, parameters as literals or as ports (constant or changing between evaluations); '
-        'outputs and pause deadlines of the real objects against the Coq model, outputs against the Coq specification at every '
+        'plus boundary ints/bools/floats, parameters as literals or as ports (constant or changing between evaluations), in 35% of '
+        'the histories stretches of samples in which a port is unavailable or disabled; '
+        'outputs, pause deadlines and evaluated $port arguments of the real objects against the Coq model, outputs and evaluated '
+        'arguments against the Coq specification of the effective history at every '
         'evaluation; plus tick sequences with rare input changes evaluated on every tick vs. gated by the real '
         'main.handle_value_changes (top level and nested in ADD/IF/MUL).  distinct = distinct (expression, first six samples); '
         'non-trivial = at least 8 samples and at least two different signal values')
